@@ -42,6 +42,7 @@ type contextStackEntry struct {
 	CurrentObjectCount  int
 	ExpectedObjectCount int // -1 means ignored
 	Keys                map[interface{}]bool
+	MarkerID            string // Only set on marker entries
 }
 
 type Context struct {
@@ -317,11 +318,21 @@ func (_this *Context) BeginNode() {
 func (_this *Context) BeginMarkerKeyable(id []byte, dataType DataType) {
 	_this.markerID = string(id)
 	_this.stackRule(&markedObjectKeyableRule, dataType, noObjectCount)
+	_this.CurrentEntry.MarkerID = _this.markerID
 }
 
 func (_this *Context) BeginMarkerAnyType(id []byte, dataType DataType) {
 	_this.markerID = string(id)
 	_this.stackRule(&markedObjectAnyTypeRule, dataType, noObjectCount)
+	_this.CurrentEntry.MarkerID = _this.markerID
+}
+
+// Mark a container-like object that has just ended. Markers inside of it may
+// have replaced the pending marker ID, so it is restored from the marker's own
+// stack entry first.
+func (_this *Context) MarkEndedContainer(dataType DataType) {
+	_this.markerID = _this.CurrentEntry.MarkerID
+	_this.MarkObject(dataType)
 }
 
 func (_this *Context) LocalReferenceKeyable(identifier []byte) {
